@@ -566,10 +566,22 @@ func totalOps(p Program) int {
 // (b) handshake storms
 // ---------------------------------------------------------------------------
 
-func startServer(t interface{ Fatalf(string, ...any) }) (string, func()) {
+func startServer(t interface{ Fatalf(string, ...any) }, perCmd bool) (string, func()) {
 	cfg := kit.BaseConfig(security.SecurityOptional, security.SecurityOptional, security.AuthClaimToBe)
 	cfg.SessionCache = nil
 	srv := server.New(cfg)
+	if perCmd {
+		// the application keeps ONE policy object per command and hands it out for every connection
+		shared := kit.BaseConfig(security.SecurityOptional, security.SecurityRequired, security.AuthClaimToBe)
+		shared.SessionCache = nil
+		shared.PostAuthPolicy = cfg.PostAuthPolicy
+		srv.SecurityConfigForCommand = func(cmd int) *security.SecurityConfig {
+			if cmd == 60011 {
+				return shared
+			}
+			return nil
+		}
+	}
 	srv.Handle(60011, func(ctx context.Context, c *server.Conn) error {
 		m, err := c.Stream.ReceiveCompleteMessage(ctx)
 		if err != nil {
@@ -591,12 +603,13 @@ type Storm struct {
 	API    int  `json:"api"` // 0 ConnectAndAuthenticateWithConfig, 1 bare Authenticator, 2 mixed
 	Warm   bool `json:"warm"` // establish the shared session first so most clients resume
 	Procs  int  `json:"procs"`
+	PerCmd bool `json:"per_cmd"` // the server hands out one shared per-command policy object
 }
 
 func runStorm(s Storm) string {
 	old := runtime.GOMAXPROCS(s.Procs)
 	defer runtime.GOMAXPROCS(old)
-	addr, stop := startServer(panicT{})
+	addr, stop := startServer(panicT{}, s.PerCmd)
 	defer stop()
 	shared := kit.BaseConfig(security.SecurityRequired, security.SecurityRequired, security.AuthClaimToBe) // ONE config object for all clients
 	one := func(i int) string {
@@ -692,9 +705,9 @@ func (panicT) Fatalf(f string, a ...any) { panic(fmt.Sprintf(f, a...)) }
 func TestC17HandshakeStorms(t *testing.T) {
 	rapid.Check(t, func(t *rapid.T) {
 		s := Storm{N: rapid.IntRange(4, 32).Draw(t, "n"), API: rapid.IntRange(0, 2).Draw(t, "api"), Warm: rapid.Bool().Draw(t, "warm"),
-			Procs: rapid.SampledFrom([]int{2, 4, 16}).Draw(t, "procs")}
+			Procs: rapid.SampledFrom([]int{2, 4, 16}).Draw(t, "procs"), PerCmd: rapid.Bool().Draw(t, "percmd")}
 		v := runStorm(s)
-		ev.Case(fmt.Sprintf("storm/api=%d/warm=%v", s.API, s.Warm), fmt.Sprintf("storm:%+v", s))
+		ev.Case(fmt.Sprintf("storm/api=%d/warm=%v/percmd=%v", s.API, s.Warm, s.PerCmd), fmt.Sprintf("storm:%+v", s))
 		ev.Count("concurrent_handshakes", int64(s.N))
 		ev.Sample("storm", s)
 		if v != "" {
